@@ -1,6 +1,6 @@
 #!/bin/bash
 # usage: tools/confirm2.sh <seed id e.g. C03b> <check ids...>; serial repository suite + demo + checks against a patched scratch worktree
-ID="$1"; shift; CHECKS="$@"; OUT=/tmp/seed/${ID}_out
+ID="$1"; shift; CHECKS="$@"; OUT=${SEEDDIR:-/tmp/seed}/${ID}_out
 WT=/tmp/cf_$ID
 git -C /repo worktree remove --force $WT 2>/dev/null
 git -C /repo worktree add -q --detach $WT HEAD || exit 2
